@@ -24,7 +24,11 @@ RULE = (
     "and out of presentation order.  After EVERY operation the package graph (parts, content types, relationships, r:* "
     "references of every XML part) is snapshotted and the step's delta is checked well-formed by the Lean model; at every "
     "save the zip is judged by the closure predicates and re-opened and compared (slides, shapes, text, picture hashes, "
-    "chart types/values/categories) with the in-memory presentation.  Non-trivial = distinct history."
+    "chart types/values/categories) with the in-memory presentation.  For add_slide, add_picture, add_chart, add_ole_object and "
+    "slide.notes_slide the graph after the call is PREDICTED by the model from the graph before it and compared part by part.  Start "
+    "decks of every kind (scrambled slide names, a slide kept by a jump only, foreign parts with relationships, odd part names, "
+    "root-absolute targets) are forced once per run; the two states a proof excludes (a fixed part name already taken) are run on "
+    "the real library.  Non-trivial = distinct history."
 )
 ASSUMPTIONS = [
     "the XML content of a part is abstracted to the multiset of its r:* attribute values",
